@@ -87,6 +87,9 @@ func (g *G) MsgStress(allowPlural bool) []Cmd {
 	tags := []string{"<a href=\"u\">", "</a>", "<b>", "</b>", "<br/>", "<br>", "<i>", "</i>", "<span class=\"c\">", "</span>", "<img src=\"i.png\"/>", "<a href=\"other\">", "<p>", "<li>", "<em>", "<h1>", "<A>", "<ul>", "</ul>", "<ol>", "</li>", "<h2>", "</h1>", "<input type=\"t\"/>", "<tBody>", "<TD>", "</em>", "<img src=\"j.png\">", "<br />", "<x1y>"}
 	words := []string{"zero\ufeffwidth ", "Hello ", "you have ", " new items", " and ", "!", ", ", "Click ", "here", " from ", "{sp}", "{lb}", "{rb}", "{lb}"}
 
+	if g.P.RawBytes {
+		words = append(words, "caf\uf7e9 ", "caf\uf7e8 ", "\uf7ff", "na\uf7efve \uf7c3", "\uf7e2\uf782 ") // (see ref.ExpandRaw)
+	}
 	defined := map[string]bool{}
 	var lets []Cmd
 	use := func(p ph) Cmd {
